@@ -61,6 +61,8 @@ B = (1, 1, 0x123)
 
 E_ID = (1, 0, 0x055)  # TC, same APID as A
 I_ID = (0, 0, 0x7FF)  # idle APID
+F_ID = (0, 1, 0x003)  # octets 08 03
+H_ID = (1, 1, 0x005)  # octets 18 05: the low octet of F followed by the high octet of H (03 18) is NOT a registered ID
 FILLERS = (bytes([0x19, 0x23, 0x00, 0x55, 0x00, 0x00, 0x00]), bytes([0x00, 0x55, 0x01, 0x02, 0x19, 0x23, 0x7F]))
 
 
@@ -98,6 +100,12 @@ def _items(variant):
     v9 = bytearray(_pkt(A, 9, 11, variant))
     v9[0] |= 5 << 5
     it["V9"] = bytes(v9)
+    # two IDs whose octets, written one after the other, contain a third pair (low octet of one, high octet of the other):
+    # that pair as stray octets between packets "cannot be a registered packet ID" and must be skipped
+    it["F7"] = _pkt(F_ID, 7, 12, variant)
+    it["K8"] = _pkt(H_ID, 8, 13, variant)
+    it["Sfh"] = b"\x03\x18"
+    it["Shf"] = b"\x05\x08"
     # the largest packets the length field allows (total 65536 / 65542 octets, length field 0xFFF9 / 0xFFFF)
     it["A65536"] = _pkt(A, 65536, 7, variant)
     it["A65542"] = _pkt(A, 65542, 8, variant)
@@ -108,13 +116,14 @@ ITEMS_V = (_items(0), _items(1))  # variant 1: queue 2 of the two-queue mode (ot
 ITEMS = ITEMS_V[0]
 PACKETS = ("A7", "A9", "B8", "A13")  # alphabet of the enumerated streams
 IDSET_PACKETS = ("E8", "I9", "V9")
-ALL_PACKETS = PACKETS + ("A17", "A265", "A65536", "A65542") + IDSET_PACKETS
+STRADDLE_PACKETS = ("F7", "K8")
+ALL_PACKETS = PACKETS + ("A17", "A265", "A65536", "A65542") + IDSET_PACKETS + STRADDLE_PACKETS
 GARBAGE = ("G1", "G3", "G7")
 TAIL_SRC = "A9"
 
 
 def ids_raw():
-    return [(t << 12 | s << 11 | a) for (t, s, a) in (A, B, C_ID, E_ID, I_ID)]
+    return [(t << 12 | s << 11 | a) for (t, s, a) in (A, B, C_ID, E_ID, I_ID, F_ID, H_ID)]
 
 
 _BUILD_CACHE = {}
@@ -178,7 +187,25 @@ HUGE_STREAMS = (["A65536"], ["A65542"], ["A7", "A65542", "B8"], ["A65536", "T3"]
 C_ID = (1, 0, 0x2AA)
 ID_ORDERS = ((0, 1), (1, 0), (0, 1, 2), (0, 2, 1), (1, 0, 2), (1, 2, 0), (2, 0, 1), (2, 1, 0),
              # larger ID sets (indexes into (A, B, C_ID, E_ID, I_ID)): two IDs sharing an APID, the idle APID
-             (0, 1, 3, 4), (4, 3, 1, 0), (3, 0, 4, 1, 2))
+             (0, 1, 3, 4), (4, 3, 1, 0), (3, 0, 4, 1, 2),
+             # two IDs that spell a third octet pair where they meet in a list (indexes 5, 6 = F_ID, H_ID), in both orders
+             (5, 6), (6, 5), (0, 5, 6, 1))
+STRADDLE_ORDERS = (11, 12, 13)
+
+
+def straddle_stream_names():
+    """every body of <= 3 items over {F7, K8, Sfh, Shf} that contains a stray pair and a packet (no two adjacent stray pairs), bodies
+    of < 3 items also followed by a tail T2 / T7 (the tail's ID A is registered in the third order only: there it is a packet begun,
+    in the other two it is stray data that no window of which is a registered ID)"""
+    out = []
+    for L in range(2, 4):
+        for body in itertools.product(("F7", "K8", "Sfh", "Shf"), repeat=L):
+            if not any(b[0] == "S" for b in body) or not any(b[0] != "S" for b in body):
+                continue
+            if any(body[i][0] == "S" == body[i + 1][0] for i in range(L - 1)):
+                continue
+            out.append(list(body))
+    return out
 IDSET_ORDERS = (8, 9, 10)
 
 
@@ -339,7 +366,7 @@ def _sp():
 
 def _pids(sp, order=0):
     """the registered IDs as the caller lists them: ID_ORDERS[order] indexes (A, B, C_ID)"""
-    known = (A, B, C_ID, E_ID, I_ID)
+    known = (A, B, C_ID, E_ID, I_ID, F_ID, H_ID)
     return [sp.PacketId(sp.PacketType(t), bool(s), a) for (t, s, a) in (known[i] for i in ID_ORDERS[order])]
 
 
@@ -415,7 +442,7 @@ def jsonable_short(x):
 
 def _repro(names, sched, order=0):
     stream, spans, tail_start, missing = build_stream(names)
-    known = (A, B, C_ID, E_ID, I_ID)
+    known = (A, B, C_ID, E_ID, I_ID, F_ID, H_ID)
     ids = ", ".join("PacketId(PacketType(%d), %s, 0x%03x)" % (t, bool(sh), a) for (t, sh, a) in (known[i] for i in ID_ORDERS[order]))
     return (
         "import collections\nfrom spacepackets.ccsds.spacepacket import *\n"
@@ -799,6 +826,13 @@ def shards(tier):
             items.append({"kind": "sched", "names": names, "mode": "all", "kcut": 0, "order": order, "cost": 3 ** (n - 1)})
         else:
             items.append({"kind": "sched", "names": names, "mode": "cuts", "kcut": 2 if tier == "quick" else 3, "order": order, "cost": n ** 2})
+    for i, names in enumerate(straddle_stream_names()):
+        n = len(build_stream(names)[0])
+        for order in STRADDLE_ORDERS:
+            if n <= 9:
+                items.append({"kind": "sched", "names": names, "mode": "all", "kcut": 0, "order": order, "cost": 3 ** (n - 1)})
+            else:
+                items.append({"kind": "sched", "names": names, "mode": "cuts", "kcut": 2 if tier == "quick" else 3, "order": order, "cost": n ** 2})
     for ia, na in enumerate(TWO_STREAMS):
         for nb in TWO_STREAMS[ia:]:
             la, lb = len(build_stream(na)[0]), len(build_stream(nb)[0])
